@@ -319,7 +319,24 @@ pub fn agree_modulo_eof(model: &str, t: &Trace, ops: &[Op]) -> bool {
     let a = strip(mt.split(' ').collect());
     let b = strip(t.tokens.iter().map(|x| x.as_str()).collect());
     let n = a.len().min(b.len());
-    a[..n] == b[..n]
+    if a[..n] == b[..n] {
+        return true;
+    }
+    // The eager model may be AHEAD: where the implementation's call runs out of input (its inflater is still holding bytes
+    // back) the model's call already delivers the row or frame.  If the caller then abandons the frame (finish,
+    // next_frame_info) instead of retrying, that row never shows up on the implementation's side.  From the first such
+    // position on the two runs are two different instances of the inflater contract and are not compared any further.
+    let mtoks: Vec<&str> = mt.split(' ').collect();
+    for (i, tok) in t.tokens.iter().enumerate() {
+        let m = match mtoks.get(i) {
+            Some(m) => *m,
+            None => return false,
+        };
+        if m != tok {
+            return tok == "err(eof)" && (m.starts_with("row(") || m.starts_with("frame("));
+        }
+    }
+    false
 }
 
 /// compare a model answer with an implementation trace: tokens up to the first PANIC on either side, then
